@@ -15,7 +15,13 @@
      shash <obj> <bound-hex>                   -> hex
      ohist <kind> <obj;obj;...> <ops>          -> per op: size/nbuckets/k:v,k:v/v,-,v  joined by '|'
      mhist <cls,cls,...> <ops>                 -> per op: size/k:v,k:v/v,-,v           joined by '|'
-   ops (separated by ';'): s<k>:<v>  d<k>  c  u<k>:<d>   (decimal key index, hex value) *)
+     geq <graph> <a> <b>                       -> <m> <s>: m = regenerated equiv? (0|1|U), s = SPEC bisim_dec (0|1)
+     gmod <graph> <a> <b>                      -> <m>
+     gtop <graph> <res: F | hex> <a> <b>   -> 0|1|U   whole (scheme base) equal? given the bounded pass's answer
+   graph: nodes separated by ';', node i = i-th: P<a>.<d> | V<i>.<j>... ("V" = empty vector) | L<obj>
+   ops (separated by ';'): s<k>:<v>  d<k>  c  u<k>:<d>  k  x   (decimal key index, hex value); c = continue on a copy and keep
+   the original as `the other' table, k = keep a copy aside, x = swap the two; per op the dump of the current table and,
+   after '&', of the other one *)
 open Model
 open Common
 
@@ -62,13 +68,31 @@ let parse_ops (s : string) : hop list =
                 | [k; v] -> HUpd (nat_of_int (int_of_string k), z_of_hex v) | _ -> failwith "op u")
       | 'd' -> HDel (nat_of_int (int_of_string body))
       | 'c' -> HCopy
+      | 'k' -> HKeep
+      | 'x' -> HSwap
       | _ -> failwith ("op " ^ t)) (String.split_on_char ';' s)
 
 let str_alist l = String.concat "," (List.map (fun (k, v) -> string_of_int (int_of_nat k) ^ ":" ^ hex_of_z v) l)
 let str_lookups l = String.concat "," (List.map (function None -> "-" | Some v -> hex_of_z v) l)
 let str_eres = function EFalse -> "F" | EFuel -> "U" | EBound b -> "B" ^ hex_of_z b
 
+let parse_graph (s : string) : obj node list =
+  List.map (fun t ->
+      let body = String.sub t 1 (String.length t - 1) in
+      let ids b = if b = "" then [] else List.map (fun x -> nat_of_int (int_of_string x)) (String.split_on_char '.' b) in
+      match t.[0] with
+      | 'P' -> (match ids body with [a; d] -> NPair (a, d) | _ -> failwith "node P")
+      | 'V' -> NVec (ids body)
+      | 'L' -> NLeaf (parse_obj body)
+      | _ -> failwith ("node " ^ t)) (String.split_on_char ';' s)
+let str_ob = function None -> "U" | Some true -> "1" | Some false -> "0"
+let nat_s x = nat_of_int (int_of_string x)
+
 let handle = function
+  | ["geq"; g; a; b] -> let (m, sp) = q_geq (parse_graph g) (nat_s a) (nat_s b) in str_ob m ^ " " ^ (if sp then "1" else "0")
+  | ["gmod"; g; a; b] -> str_ob (q_gmodel (parse_graph g) (nat_s a) (nat_s b))
+  | ["gtop"; g; r; a; b] ->
+      str_ob (q_gtop (parse_graph g) (if r = "F" then None else Some (z_of_hex r)) (nat_s a) (nat_s b))
   | ["eqb"; a; b; d; bd] -> str_eres (q_equal_bound (parse_obj a) (parse_obj b) (z_of_hex d) (z_of_hex bd))
   | ["equal"; a; b] -> string_of_bool (q_equal (parse_obj a) (parse_obj b))
   | ["eqv"; a; b] -> string_of_bool (q_eqv (parse_obj a) (parse_obj b))
@@ -77,13 +101,13 @@ let handle = function
   | ["ohist"; kind; keys; ops] ->
       let ks = List.map parse_obj (String.split_on_char ';' keys) in
       let r = obj_hist (nat_of_int (int_of_string kind)) ks (parse_ops ops) in
-      String.concat "|" (List.map (fun (((sz, nb), al), lk) ->
-          hex_of_z sz ^ "/" ^ string_of_int (int_of_nat nb) ^ "/" ^ str_alist al ^ "/" ^ str_lookups lk) r)
+      String.concat "|" (List.map (fun st -> String.concat "&" (List.map (fun (((sz, nb), al), lk) ->
+          hex_of_z sz ^ "/" ^ string_of_int (int_of_nat nb) ^ "/" ^ str_alist al ^ "/" ^ str_lookups lk) st)) r)
   | ["mhist"; cls; ops] ->
       let cs = List.map z_of_hex (String.split_on_char ',' cls) in
       let r = map_hist cs (parse_ops ops) in
-      String.concat "|" (List.map (fun ((sz, al), lk) ->
-          hex_of_z sz ^ "/" ^ str_alist al ^ "/" ^ str_lookups lk) r)
+      String.concat "|" (List.map (fun st -> String.concat "&" (List.map (fun ((sz, al), lk) ->
+          hex_of_z sz ^ "/" ^ str_alist al ^ "/" ^ str_lookups lk) st)) r)
   | f -> "ERR unknown request " ^ String.concat " " f
 
 let () = serve handle
